@@ -165,7 +165,7 @@ class Client:
                 nval = self.sock.recv(self.read_size)
                 self.__dprint(nval)
                 if not len(nval):
-                    break
+                    raise Error("Connection closed by server")
                 self.__read_buffer += nval
             except (socket.timeout, ssl.SSLError):
                 raise Error("Failed to read data from the server")
